@@ -172,7 +172,7 @@ def extract(src_text, spec):
     # (f') optional respelling (spec key "opt_neg"): unary minus applied to a plain name / path in argument or initialiser position
     #      (`-PI_DEG`, `-x`) is spelled `fneg(PI_DEG)`; names followed by `.`, `(` or `[` are left alone (precedence would change)
     if spec.get("opt_neg"):
-        body, n = re.subn(r"([(,=]\s*)-([A-Za-z_][\w:]*)(?![\w(.\[:])", r"\1fneg(\2)", body)
+        body, n = re.subn(r"([(,={]\s*)-([A-Za-z_][\w:]*)(?![\w(.\[:])", r"\1fneg(\2)", body)
         if n:
             meta["edits"].append("unary minus on a plain name spelled fneg(..) (%d occurrence(s))" % n)
     # (a) named return
